@@ -4,6 +4,7 @@ import (
 	"fmt"
 	"go/token"
 	"go/types"
+	"sort"
 	"strings"
 
 	"golang.org/x/tools/go/ssa"
@@ -636,6 +637,9 @@ func (e *Engine) mapInit(s *State, mt *types.Map, r string) {
 	e.heapSet(s, md, ds, app("store", h, r, "((as const (Array "+ks+" Bool)) false)"))
 	hl := e.heapGet(s, ml, "(Array Int Int)")
 	e.heapSet(s, ml, "(Array Int Int)", app("store", hl, r, "0"))
+	for _, f := range e.foldsFor(mt) {
+		s.assume(eq(app(e.foldSym(f, mt), app("select", s.Heap[md], r), e.mapVals(s, mt, r)), "0"))
+	}
 }
 
 func (e *Engine) mapDom(s *State, mt *types.Map, m string) string {
@@ -670,6 +674,11 @@ func (e *Engine) mapStore(s *State, mt *types.Map, m string, k, v *Val) {
 	h := e.heapGet(s, md, ds)
 	was := e.define(s, "mwas", "Bool", app("select", app("select", h, m), k.L[0]))
 	e.heapSet(s, md, ds, app("store", h, m, app("store", app("select", h, m), k.L[0], "true")))
+	foldOldVals := ""
+	if len(e.foldsFor(mt)) > 0 {
+		lf0 := e.leaves(mt.Elem())[0]
+		foldOldVals = e.heapGet(s, e.mapValName(mt, lf0.Path), "(Array Int (Array "+ks+" "+lf0.Sort+"))")
+	}
 	for i, lf := range e.leaves(mt.Elem()) {
 		name, sortS := e.mapValName(mt, lf.Path), "(Array Int (Array "+ks+" "+lf.Sort+"))"
 		hv := e.heapGet(s, name, sortS)
@@ -677,6 +686,21 @@ func (e *Engine) mapStore(s *State, mt *types.Map, m string, k, v *Val) {
 	}
 	hl := e.heapGet(s, ml, "(Array Int Int)")
 	e.heapSet(s, ml, "(Array Int Int)", app("store", hl, m, app("ite", was, app("select", hl, m), app("+", app("select", hl, m), "1"))))
+	if fs := e.foldsFor(mt); len(fs) > 0 {
+		oldDom := app("select", h, m)
+		lf := e.leaves(mt.Elem())[0]
+		_ = lf
+		newDom := app("select", s.Heap[md], m)
+		newVals := e.mapVals(s, mt, m)
+		for _, f := range fs {
+			sym := e.foldSym(f, mt)
+			oldVals := app("select", foldOldVals, m)
+			wOld := e.foldWeight(s, f, mt, k.L[0], app("select", oldVals, k.L[0]))
+			wNew := e.foldWeight(s, f, mt, k.L[0], v.L[0])
+			s.assume(eq(app(sym, newDom, newVals), app("+", app("-", app(sym, oldDom, oldVals), app("ite", was, wOld, "0")), wNew)))
+			s.assume(and(app(">=", wNew, "0"), app(">=", wOld, "0"), app(">=", app(sym, oldDom, oldVals), app("ite", was, wOld, "0"))))
+		}
+	}
 	e.escape(s, mt.Elem(), v)
 	e.escape(s, mt.Key(), k)
 }
@@ -717,7 +741,15 @@ func (e *Engine) execRange(s *State, x *ssa.Range) {
 	if mt, ok := x.X.Type().Underlying().(*types.Map); ok {
 		_, _, ks := e.mapNames(mt)
 		dom := e.define(s, "rdom", "(Array "+ks+" Bool)", app("ite", eq(v.L[0], "0"), "((as const (Array "+ks+" Bool)) false)", e.mapDom(s, mt, v.L[0])))
-		s.Iters[x] = &iterState{Map: v, MT: mt, V: "((as const (Array " + ks + " Bool)) false)", Dom0: dom}
+		it := &iterState{Map: v, MT: mt, V: "((as const (Array " + ks + " Bool)) false)", Dom0: dom}
+		if fs := e.foldsFor(mt); len(fs) > 0 {
+			it.Vals0 = e.define(s, "rvals", "(Array "+ks+" "+e.leaves(mt.Elem())[0].Sort+")", e.mapVals(s, mt, v.L[0]))
+			for _, f := range fs {
+				sym := e.foldSym(f, mt)
+				s.assume(and(eq(app(sym, it.V, it.Vals0), "0"), app(">=", app(sym, dom, it.Vals0), "0")))
+			}
+		}
+		s.Iters[x] = it
 		return
 	}
 	s.Iters[x] = &iterState{Str: v}
@@ -750,6 +782,16 @@ func (e *Engine) execNext(s *State, x *ssa.Next) []*State {
 	v, _ := e.mapLoad(s, mt, it.Map.L[0], k)
 	nit := *it
 	nit.V = e.define(s, "visited", "(Array "+ks+" Bool)", app("store", it.V, k.L[0], "true"))
+	if it.Vals0 != "" {
+		for _, f := range e.foldsFor(mt) {
+			sym := e.foldSym(f, mt)
+			w := e.define(s, "w_"+f.Name, "Int", e.foldWeight(s, f, mt, k.L[0], app("select", it.Vals0, k.L[0])))
+			s.assume(and(app(">=", w, "0"),
+				eq(app(sym, nit.V, it.Vals0), app("+", app(sym, it.V, it.Vals0), w)),
+				app("<=", app(sym, nit.V, it.Vals0), app(sym, it.Dom0, it.Vals0)),
+				app(">=", app(sym, it.V, it.Vals0), "0")))
+		}
+	}
 	s.Iters[x.Iter] = &nit
 	s.top().Vals[x] = &Val{Tup: []*Val{{L: []string{"true"}}, k, v}, L: append(append([]string{"true"}, k.L...), v.L...)}
 	return []*State{s, done}
@@ -910,4 +952,47 @@ func (e *Engine) execGo(s *State, x *ssa.Go) {
 			}
 		}
 	}
+}
+
+// ---- folds over finite maps ---------------------------------------------------------------------
+
+func (e *Engine) foldsFor(mt *types.Map) []*Fold {
+	var out []*Fold
+	if e.C == nil {
+		return nil
+	}
+	var names []string
+	for n := range e.C.Folds {
+		names = append(names, n)
+	}
+	sort.Strings(names)
+	for _, n := range names {
+		f := e.C.Folds[n]
+		if types.TypeString(mt.Key().Underlying(), nil) == f.KType && types.TypeString(mt.Elem().Underlying(), nil) == f.VType && len(e.leaves(mt.Elem())) == 1 {
+			out = append(out, f)
+		}
+	}
+	return out
+}
+
+func (e *Engine) foldSym(f *Fold, mt *types.Map) string {
+	ks := e.leaves(mt.Key())[0].Sort
+	vs := e.leaves(mt.Elem())[0].Sort
+	sym := "fold!" + f.Name
+	e.globalDecl(fmt.Sprintf("(declare-fun %s ((Array %s Bool) (Array %s %s)) Int)", sym, ks, ks, vs))
+	return sym
+}
+
+func (e *Engine) foldWeight(s *State, f *Fold, mt *types.Map, k, v string) string {
+	c := &SpecCtx{Fn: s.top().Fn, Params: map[string]*Val{}, PTypes: map[string]types.Type{}, Bound: map[string]*SV{}}
+	c.Bound[f.KName] = e.svOf(&Val{L: []string{k}}, mt.Key())
+	c.Bound[f.VName] = e.svOf(&Val{L: []string{v}}, mt.Elem())
+	return e.evalTerm(s, c, f.Body.Expr)
+}
+
+func (e *Engine) mapVals(s *State, mt *types.Map, m string) string {
+	_, _, ks := e.mapNames(mt)
+	lf := e.leaves(mt.Elem())[0]
+	h := e.heapGet(s, e.mapValName(mt, lf.Path), "(Array Int (Array "+ks+" "+lf.Sort+"))")
+	return app("select", h, m)
 }
